@@ -29,7 +29,7 @@ fn main() {
     }
     if args[2] == "--replay" {
         let file = args.get(3).cloned().unwrap_or_else(|| machinery_failure("--replay needs a file"));
-        std::process::exit(ledger::replay(prop, &file));
+        std::process::exit(replay(prop, &file));
     }
     let tier = match args[2].as_str() {
         "quick" => Tier::Quick,
@@ -58,4 +58,53 @@ fn main() {
         other => machinery_failure(&format!("mc-core has no engine for {other}")),
     };
     std::process::exit(code);
+}
+
+/// Re-execute the input of a replay file twice (observations must agree) and print what the oracle sees.
+fn replay(prop: &str, file: &str) -> i32 {
+    let text = std::fs::read_to_string(file).unwrap_or_else(|e| machinery_failure(&format!("cannot read {file}: {e}")));
+    let v: serde_json::Value = serde_json::from_str(&text).unwrap_or_else(|e| machinery_failure(&format!("bad replay file: {e}")));
+    println!("property {prop}, clause {}: {}", v["clause"], v["detail"].as_str().unwrap_or(""));
+    match v["input"]["kind"].as_str() {
+        Some("ledger") if matches!(prop, "C01" | "C02" | "C03" | "C05" | "C09" | "C10" | "C11" | "C12") => ledger::replay(prop, file),
+        Some("text") => {
+            let t = v["input"]["text"].as_str().unwrap_or("");
+            println!("input text: {t:?}");
+            let run = || format!("reference recogniser: {:?}\ntool: {:?}\npipeline: {:?}", mcx::refparse::parse(t).map(|x| x.len()), lex::tool_parse(t).map(|x| x.len()), robust::pipeline_stage(t));
+            let (a, b) = (run(), run());
+            if a != b {
+                machinery_failure("replay is not deterministic");
+            }
+            println!("{a}");
+            let agree = match (mcx::refparse::parse(t), lex::tool_parse(t)) {
+                (Ok(x), Ok(y)) => x == y,
+                (Err(e), Err(g)) => !g.starts_with("PANIC") && lex::reported_line(&g) == Some(e.line),
+                _ => false,
+            };
+            if prop == "C13" && agree {
+                println!("replay: the tool and the reference recogniser agree on this text; property {prop} holds on this input");
+                return 0;
+            }
+            println!("VIOLATION property={prop} replay={file}");
+            1
+        }
+        Some("json") if prop == "C18" || prop == "C19" => {
+            use cgt_converter::BrokerConverter;
+            let val = &v["input"]["value"];
+            let (tx, aw) = if val.get("BrokerageTransactions").is_some() { (val.to_string(), Some(conv::awards_json_pub())) } else { (val["transactions"].to_string(), val.get("awards").map(|a| a.to_string())) };
+            let run = || format!("{:?}", cgt_converter::schwab::SchwabConverter::new().convert(&cgt_converter::schwab::SchwabInput { transactions_json: tx.clone(), awards_json: aw.clone() }).map(|o| (o.cgt_content.lines().filter(|l| !l.starts_with("# Converted:")).collect::<Vec<_>>().join("\n"), o.warnings, o.skipped_count)).map_err(|e| e.to_string()));
+            let (a, b) = (run(), run());
+            if a != b {
+                machinery_failure("replay is not deterministic");
+            }
+            println!("export: {val}\nconversion result: {a}\nVIOLATION property={prop} replay={file}   (as recorded)");
+            1
+        }
+        _ => {
+            println!("input: {}\ncontext: {}", v["input"], v["context"]);
+            println!("this violation was observed through a process-level or differential engine; re-run `./check {prop} {}` to reproduce it (the exploration is deterministic)", v["tier"].as_str().unwrap_or("quick"));
+            println!("VIOLATION property={prop} replay={file}   (as recorded)");
+            1
+        }
+    }
 }
